@@ -183,6 +183,15 @@ def op_check(pid, tier, seed, replay=None):
         if tier == "replay":
             return op_replay(pid, wd, replay, spec)
         r = op_part(pid, tier, seed, wd, spec)
+        if pid in CLOSED_LOOP:
+            # the closed loop RP <-> OP (spec/Flow.tla) judged on this property's rule prefix
+            import misc
+            x = misc.flow_part(pid, tier, seed, wd, (pid + ".",))
+            r["new"], r["known"] = r["new"] + x["new"], r["known"] + x["known"]
+            r["coverage"]["closed_loop"] = x["coverage"]
+            for k in ("states", "transitions", "traces_validated_against_impl", "evaluations", "distinct_nontrivial"):
+                r["coverage"][k] += x["coverage"][k]
+            r["assumptions"] = r["assumptions"] + x["assumptions"]
         write_evidence(pid, tier, seed, "model_checking", r["coverage"], time.time() - t0, r["new"], assumptions=r["assumptions"])
         return 1 if r["new"] else 0
     finally:
@@ -227,5 +236,7 @@ def op_replay(pid, wd, path, spec):
         return 1
     return 0
 
+
+CLOSED_LOOP = {"C07", "C08"}
 
 CHECKS = {p: op_check for p in FAMILY if p not in ('C03', 'C04', 'C05', 'C10', 'C09', 'C11', 'C16')}   # C03 is composed in tables.py
